@@ -6,6 +6,7 @@ import (
 	"go/token"
 	"go/types"
 	"math"
+	"math/big"
 	"math/bits"
 	"strings"
 
@@ -29,7 +30,8 @@ func checkC03(c *Ctx, r *Report) {
 	checkUPCEANWritersEnforce(c, r)
 	checkCode128Checksum(c, r)
 	checkCode93Checksum(c, r)
-	// pattern tables and the per-character writer/reader pairs
+	check1DTables(c, r)
+	checkCodabarMinLength(c, r)
 	check1DTables(c, r)
 	checkCode39Pair(c, r)
 	checkCode93Pair(c, r)
@@ -1056,5 +1058,90 @@ func checkUPCEANQuietZone(c *Ctx, r *Report) {
 		default:
 			r.Pass("R-QUIET", key, c.pos(rfd.Pos()), fmt.Sprintf("margin %d: %d left, %d right; end guard %d", m, left, right, endW))
 		}
+	}
+}
+
+// M-1DMIN: the Codabar reader's false-positive length guard against what the writer emits
+func checkCodabarMinLength(c *Ctx, r *Report) {
+	r.Rule("M-1DMIN", "the Codabar writer emits its content's n data characters between one start and one stop character (adding default guards when the content has none), so the reader's length guard on decodeRowResult - the comparison of len(decodeRowResult) with a constant whose branch returns not-found, lifted to a linear condition - must admit n + 2 characters for every n the writer accepts; one obligation per n = 0..6", 7)
+	fd, p := c.funcDeclOf("oned", "codabarReader.DecodeRow")
+	if fd == nil {
+		r.AnchorLost("M-1DMIN", "oned.codabarReader.DecodeRow", "method not found")
+		return
+	}
+	r.Analysed("oned.codabarReader.DecodeRow")
+	s := c.symFunc(fd, p, func(o types.Object) bool { return true })
+	ro := polyAtom(objAtom(recvObj(p, fd))).String()
+	atom := "len(fld(" + ro + ",decodeRowResult))"
+	type guard struct {
+		a, b *big.Rat // condition a*L + b  op  0
+		op   token.Token
+		pos  token.Pos
+	}
+	var guards []guard
+	lin := func(q *Poly) (*big.Rat, *big.Rat, bool) {
+		a, b := new(big.Rat), new(big.Rat)
+		for k, v := range q.m {
+			switch k {
+			case "":
+				b = v
+			case atom:
+				a = v
+			default:
+				return nil, nil, false
+			}
+		}
+		return a, b, a.Sign() != 0
+	}
+	for _, rt := range s.rets {
+		if len(rt.Conds) == 0 {
+			continue
+		}
+		cd := rt.Conds[len(rt.Conds)-1]
+		if cd.op == token.ILLEGAL || cd.neg {
+			continue
+		}
+		a, b, ok := lin(cd.l.sub(cd.r))
+		if !ok {
+			continue
+		}
+		// an error return: the result is nil
+		if len(rt.Stmt.Results) != 2 {
+			continue
+		}
+		if id, isId := rt.Stmt.Results[0].(*ast.Ident); !isId || id.Name != "nil" {
+			continue
+		}
+		guards = append(guards, guard{a, b, cd.op, rt.Stmt.Pos()})
+	}
+	r.Extra("M-1DMIN length guards found", len(guards))
+	holds := func(g guard, L int64) bool {
+		v := new(big.Rat).Add(new(big.Rat).Mul(g.a, big.NewRat(L, 1)), g.b)
+		switch g.op {
+		case token.LSS:
+			return v.Sign() < 0
+		case token.LEQ:
+			return v.Sign() <= 0
+		case token.GTR:
+			return v.Sign() > 0
+		case token.GEQ:
+			return v.Sign() >= 0
+		case token.EQL:
+			return v.Sign() == 0
+		case token.NEQ:
+			return v.Sign() != 0
+		}
+		return true
+	}
+	for n := int64(0); n <= 6; n++ {
+		key := fmt.Sprintf("oned Codabar %d data characters", n)
+		bad, at := "", c.pos(fd.Pos())
+		for _, g := range guards {
+			if holds(g, n+2) {
+				bad = fmt.Sprintf("a symbol of start + %d data character(s) + stop, which the writer produces, is rejected by the reader's length guard", n)
+				at = c.pos(g.pos)
+			}
+		}
+		r.Check(bad == "", "M-1DMIN", key, at, bad)
 	}
 }
